@@ -896,6 +896,13 @@ class Proc(object):
             if isinstance(ty, tuple) and ty[0] in ("List", "Set") and ty[1] in ("Str", ("List", "Str")):
                 return ("(stableSortBy (fun a b => decide (a ≤ b)) %s)" % t, ("List", ty[1]))
             raise Untranslatable("sorted of %s" % (ty,))
+        if fname == "list" and len(e.args) == 1 and isinstance(e.args[0], ast.Call) and isinstance(e.args[0].func, ast.Attribute) \
+                and e.args[0].func.attr == "keys" and not e.args[0].args and not e.args[0].keywords:
+            # list(d.keys()) of an insertion-ordered dictionary: its keys in the order of the entries
+            t, ty = self.expr(e.args[0].func.value, env)
+            if isinstance(ty, tuple) and ty[0] == "ODict":
+                return ("(%s.map fun e => e.1)" % t, ("List", ty[1]))
+            raise Untranslatable("keys of %s" % (ty,))
         if fname == "list" and len(e.args) == 1:
             t, ty = self.expr(e.args[0], env)
             if isinstance(ty, tuple) and ty[0] in ("List", "Prod"):
@@ -1702,7 +1709,24 @@ class Proc(object):
                 and len(s.handlers) == 1 and isinstance(s.handlers[0].type, ast.Name) and s.handlers[0].type.id == "KeyError" \
                 and len(s.handlers[0].body) == 1 and isinstance(s.handlers[0].body[0], ast.Raise) and (self.ret[0] == "Except" or self.at_dest_level())
             if not ok:
-                raise Untranslatable("try statement shape")
+                # try: return list(D[key].keys())  except KeyError: raise ...   - D an insertion-ordered dictionary of dictionaries held in a declared
+                # parameter: absent key -> the error, else the keys of the entry found (no other look-up in the body can raise KeyError)
+                rv = s.body[0].value if len(s.body) == 1 and isinstance(s.body[0], ast.Return) else None
+                ok2 = isinstance(rv, ast.Call) and isinstance(rv.func, ast.Name) and rv.func.id == "list" and len(rv.args) == 1 and not rv.keywords \
+                    and isinstance(rv.args[0], ast.Call) and isinstance(rv.args[0].func, ast.Attribute) and rv.args[0].func.attr == "keys" and not rv.args[0].args \
+                    and isinstance(rv.args[0].func.value, ast.Subscript) and not s.orelse and not s.finalbody \
+                    and len(s.handlers) == 1 and isinstance(s.handlers[0].type, ast.Name) and s.handlers[0].type.id == "KeyError" \
+                    and len(s.handlers[0].body) == 1 and isinstance(s.handlers[0].body[0], ast.Raise) and self.ret[0] == "Except"
+                if not ok2:
+                    raise Untranslatable("try statement shape")
+                sub = rv.args[0].func.value
+                dt, dty = self.expr(sub.value, env)
+                if not (isinstance(dty, tuple) and dty[0] == "ODict" and isinstance(dty[2], tuple) and dty[2][0] == "ODict"):
+                    raise Untranslatable("try around a look-up in %s" % (dty,))
+                key = self.coerce(*self.expr(sub.slice, env), dty[1])
+                n = env.fresh("found")
+                return "(match (lookupLast %s %s) with\n| some %s => %s\n| none => (.error %s))" % (
+                    dt, key, n, self.wrap_ret("(%s.map fun e => e.1)" % n, ("List", dty[2][1])), self.err_tag(s.handlers[0].body[0].exc))
             sub = s.body[0].value
             recv, rty = self.expr(sub.value.value, env)
             decl = self.spec.get("try_subscripts", {}).get((rty[1], sub.value.attr)) if isinstance(rty, tuple) and rty[0] == "Rec" else None
@@ -2551,6 +2575,9 @@ PROCS = [
          params=[("self._sections", ("ODict", "Str", ("ODict", "Str", "Str"))), ("self.default_section", "Str"), ("section", "Str"), ("option", "Str")], ret="Bool",
          implicit=[("strip", ("Fun", ["Str"], "Str")), ("superHasOption", ("Fun", ["Str", "Str"], "Bool"))],
          super_ops={"has_option": ("superHasOption", ["Str", "Str"], "Bool")}),
+    dict(name="raw_options", file="config/_config_parser.py", func="_RawConfigParser.options",
+         params=[("self._sections", ("ODict", "Str", ("ODict", "Str", "Str"))), ("self._defaults", ("ODict", "Str", "Str")), ("self.default_section", "Str"), ("section", "Str")],
+         ret=("Except", "RawErr", ("List", "Str")), raises=[("NoSectionError(section)", "RawErr.noSection")]),
     # ---- C16 / C20: every entry of a section becomes one parsed tuple, in the section's order; a section that is present but EMPTY is not a missing section
     dict(name="parse_params_section", file="config/_config_parser.py", func="ConfigParser._parse_params_section",
          params=[("self._config_parser", ("Rec", "IniRec")), ("section_name", "Str"), ("parse_line_func", ("Fun", ["Str", "Str"], ("Except", "ParseErr", ("Rec", "ParsedLine"))))],
@@ -2894,6 +2921,11 @@ deriving Repr, DecidableEq
 
 inductive OvErr where
   | missing | exists | badValue | malformedOption
+deriving DecidableEq, Repr
+
+/-- configparser.NoSectionError out of `_RawConfigParser.options` -/
+inductive RawErr where
+  | noSection
 deriving DecidableEq, Repr
 
 /-- the two species options of the potable command line as argparse leaves them (`None` when the option was not given; `[]` when given without a label) -/
